@@ -91,7 +91,7 @@ fn hooks_off() {
 //          in this order, the confirming load after the publication.
 // @harness name=l1_attempt props=C02,C01,C03,C10,C14 tier=quick flavour=nostd fn=HybridProtection::attempt+LocalNode::new_fast+fast::Slots::get_debt
 #[cfg_attr(kani, kani::proof)]
-#[cfg_attr(kani, kani::unwind(34))]
+#[cfg_attr(kani, kani::unwind(66))]
 pub(crate) fn l1_attempt() {
     fresh_ledger();
     let stored = any_obj();
@@ -162,7 +162,7 @@ pub(crate) fn l1_attempt() {
 //          slot.swap(cand, SeqCst) -> control.swap(IDLE); the increment only after that swap.
 // @harness name=l1_fallback props=C02,C01,C03,C13,C14 tier=quick flavour=nostd fn=HybridProtection::fallback+LocalNode::new_helping+LocalNode::confirm_helping+helping::Slots::get_debt+helping::Slots::confirm
 #[cfg_attr(kani, kani::proof)]
-#[cfg_attr(kani, kani::unwind(34))]
+#[cfg_attr(kani, kani::unwind(66))]
 pub(crate) fn l1_fallback() {
     fresh_ledger();
     let stored = any_obj();
@@ -246,7 +246,7 @@ fn make_prot(node: &'static crate::debt::Node, obj: usize) -> (HybridProtection<
 //          own slot); no thread-local access (C10: droppable anywhere).
 // @harness name=l1_prot_drop props=C02,C10,C01,C08 tier=quick flavour=nostd fn=HybridProtection::drop+Debt::pay
 #[cfg_attr(kani, kani::proof)]
-#[cfg_attr(kani, kani::unwind(34))]
+#[cfg_attr(kani, kani::unwind(66))]
 pub(crate) fn l1_prot_drop() {
     fresh_ledger();
     let obj = any_obj();
@@ -304,7 +304,7 @@ pub(crate) fn l1_prot_drop() {
 //          debt Some(s), s paid/re-used => s untouched, delta strong = 0 (+1 then -1: the writer's increment is the one kept)
 // @harness name=l1_prot_into_inner props=C02,C10,C01,C08 tier=quick flavour=nostd fn=HybridProtection::into_inner+Debt::pay
 #[cfg_attr(kani, kani::proof)]
-#[cfg_attr(kani, kani::unwind(34))]
+#[cfg_attr(kani, kani::unwind(66))]
 pub(crate) fn l1_prot_into_inner() {
     fresh_ledger();
     let obj = any_obj();
